@@ -120,3 +120,8 @@ def fixture_check(tier):
 TASK = Task("tempo", FUNCS, pair_space, single_space)
 TASK.fixture_check = fixture_check
 TASK.est_permutations = est_permutations
+
+
+# C08: permuting the two estimated tempi must not change any score
+TASK.edges = {"permute": {"apply": lambda state: [("swap-estimates", s2) for s2 in est_permutations(state)],
+                          "funcs": None, "keys": None, "cfgs": [{}, {"tol": 0.125}]}}
